@@ -236,6 +236,16 @@ def r2_errors_contained(repo=None):
                     "observer a new metadata file that re-uses the inode of a deleted one is reported exactly so, and is lost "
                     "without ever being copied", line=m.cls(HD).lineno)
     for name in ("on_created", "on_modified"):
+        if name not in meths:
+            # not overridden: the base classes (watchdog's handler, DigitalRFEventHandler) do nothing for this event kind
+            wd = pyfront.mod("watchdog_drf", repo)
+            if name in wd.methods("DigitalRFEventHandler"):
+                raise AnalysisError("%s.%s is inherited from DigitalRFEventHandler: not followed" % (HD, name))
+            r.violation(m.rel, HD, "no %s" % name, "%s events are not mirrored: a file that is %s (a Digital Metadata file is appended to in "
+                        "place; a polling observer reports nothing but created / modified / moved / deleted) keeps its first copy in the "
+                        "destination - and in move mode the count=1 metadata ringbuffer deletes the newer source all the same" % (
+                            name[3:], "written to after its first copy" if name == "on_modified" else "created"), line=m.cls(HD).lineno)
+            continue
         mirrored, extra = _mirrors(m, HD + "." + name)
         if "event.src_path" in mirrored:
             r.ok("%s %s.%s" % (m.rel, HD, name), "mirrors event.src_path")
@@ -613,7 +623,8 @@ EXPLANATION = (
     '...`. Does NOT decide byte identity or crash points inside shutil.move. R5 also (c): in a callable class used as the'
     ' mirror function every os.link lies in the body of a try whose OSError handler copies - a link made in a sibling '
     'except clause is not covered by the copy fallback. R3 judges only values it evaluated to constants; tables, partials'
-    ' and unresolved mappings are not decided.')
+    ' and unresolved mappings are not decided. R2 also: a mirror handler that does not define on_modified (and does not '
+    'inherit it inside the package) does not mirror modifications.')
 TECHNIQUE = ('Python ast; complete operation table of mirror_to_dest; CFG ordering; abstract execution of the constructor over all option rows; regular-language emptiness for tmp. names')
 ASSUMPTIONS = ["os.rename within the destination directory is atomic", "shutil.copy2/os.link produce a complete file before returning"]
 FILES = [MR, "python/digital_rf/list_drf.py", "python/digital_rf/ringbuffer.py"]
